@@ -46,8 +46,18 @@ func (o *goSliceObject) setLength(value Value) {
 	case wantInt == o.value.Len():
 		// No change needed.
 	case wantInt < o.value.Cap():
-		// Fits in current capacity.
-		o.value.SetLen(wantInt)
+		// Fits in current capacity. A slice set by value is not addressable:
+		// re-slice instead of SetLen.
+		oldLen := o.value.Len()
+		if o.value.CanSet() {
+			o.value.SetLen(wantInt)
+		} else {
+			o.value = o.value.Slice(0, wantInt)
+		}
+		// Growing within the capacity must not re-expose stale elements.
+		for i := oldLen; i < wantInt; i++ {
+			o.value.Index(i).Set(reflect.Zero(o.value.Type().Elem()))
+		}
 	default:
 		// Needs expanding.
 		newSlice := reflect.MakeSlice(o.value.Type(), wantInt, wantInt)
